@@ -5,6 +5,7 @@ import (
 	"os"
 	"path/filepath"
 	"regexp"
+	"slices"
 	"strings"
 	"testing"
 	"time"
@@ -32,7 +33,8 @@ func c18ExpectedCodes(applied string) []string {
 	case "renameRef", "strayAnn", "aliasUnknown":
 		return []string{"linker-path-annotation-invalid-reference"}
 	case "aliasDup":
-		return []string{"linker-duplicate-path-alias-ref"}
+		// the second annotation's own template name is left unbound as well; either rule may be the one reported
+		return []string{"linker-duplicate-path-alias-ref|linker-route-missing-path-reference"}
 	case "aliasWrongType":
 		return []string{"annotation-properties-invalid-value-for-key"}
 	case "dupTemplateName":
@@ -170,7 +172,7 @@ func c18Check(m lkModel, rec *ev.Recorder) []harness.Viol {
 		for _, want := range c18ExpectedCodes(applied[0]) {
 			found, asError := false, false
 			for _, d := range fd {
-				if d.D.Code == want {
+				if slices.Contains(strings.Split(want, "|"), d.D.Code) {
 					found = true
 					if d.D.Severity == diagnostics.DiagnosticError {
 						asError = true
@@ -278,6 +280,7 @@ func TestC18(t *testing.T) {
 	harness.Run(t, harness.Prop[lkModel]{
 		ID:       "C18",
 		Gen:      c18Gen,
+		Sweep:    lkSweep,
 		Check:    c18Check,
 		Classify: c18Classify,
 		Canon:    func(m lkModel) string { return jsonStr(m) },
